@@ -115,6 +115,19 @@ def roundtrip_cell(P, A):
     else:
         s = out.result
         sig = envelope_ok(ro, mid, 'RO')
+        if sig is None:
+            # the object and the document it serialises must be the same thing: accessors read what str() writes
+            acc = B.call(lambda: ([x.id for x in ro.stories], [[i.id for i in x.items] for x in ro.stories],
+                                  ro.ro_slug, ro.ro_id, ro.message_id))
+            rc = ro.xml.find('roCreate')
+            if acc.raised:
+                sig = 'accessor-raised-' + type(acc.exc).__name__
+            elif acc.result[0] != [x.find('storyID').text for x in rc.findall('story')]:
+                sig = 'stories-differ-from-serialised-document'
+            elif acc.result[1] != [[i.find('itemID').text for i in x.findall('item')] for x in rc.findall('story')]:
+                sig = 'items-differ-from-serialised-document'
+            elif acc.result[2] != rc.find('roSlug').text or acc.result[3] != 'RO' or acc.result[4] != 1:
+                sig = 'identity-differs-from-serialised-document'
         if sig is None and B.Ctx.replay:
             # the real criterion: well-formed, reads back to an identical running order
             B.Ctx.docs.append(s)
